@@ -26,10 +26,7 @@ func (l vLister) ListCompleted(ctx context.Context) ([]discovery.SegmentRef, err
 	refs := make([]discovery.SegmentRef, 0, len(segs))
 	for i, s := range segs {
 		topic, part := vTopic(s.tp)
-		base := int64(0)
-		if len(s.offs) > 0 {
-			base = s.offs[0]
-		}
+		base := vBase(segs, i)
 		refs = append(refs, discovery.SegmentRef{Topic: topic, Partition: part, BaseOffset: base, SegmentKey: vSegKey(i), IndexKey: vSegKey(i) + ".index"})
 	}
 	return refs, nil
